@@ -1207,3 +1207,89 @@ Proof.
   intros R extras sent l k n d Hn Hd. rewrite module_data_offers_configured in Hd.
   rewrite nth_error_map, Hn in Hd. simpl in Hd. inversion Hd; subst d. unfold notify_data. simpl. auto 10.
 Qed.
+
+(* ---- the documented meaning of topicsbystatus / partitioncounts -------------------------------- *)
+
+Lemma topics_in_insert : forall st tp m s t,
+  In t (topics_in (insert_topic st tp m) s) <-> In t (topics_in m s) \/ (s = st /\ t = tp).
+Proof.
+  intros st tp m s t. unfold topics_in. induction m as [|[k ts] r IH]; simpl.
+  - destruct (String.eqb s st) eqn:E.
+    + apply String.eqb_eq in E. subst. simpl. intuition.
+    + apply String.eqb_neq in E. simpl. intuition.
+  - destruct (String.eqb k st) eqn:Ek.
+    + apply String.eqb_eq in Ek. subst k. simpl. destruct (String.eqb s st) eqn:E.
+      * apply String.eqb_eq in E. subst s.
+        destruct (existsb (String.eqb tp) ts) eqn:Ex.
+        -- apply existsb_exists in Ex. destruct Ex as [x [Hx Hq]]. apply String.eqb_eq in Hq. subst x.
+           split; [auto|]. intros [H|[_ ->]]; auto.
+        -- rewrite in_app_iff. simpl. intuition.
+      * apply String.eqb_neq in E. intuition.
+    + simpl. destruct (String.eqb s k) eqn:E.
+      * apply String.eqb_eq in E. subst s. apply String.eqb_neq in Ek. intuition.
+      * exact IH.
+Qed.
+
+Lemma NoDup_app_intro_single : forall (l : list string) x, NoDup l -> ~ In x l -> NoDup (l ++ [x]).
+Proof.
+  induction l as [|a r IH]; simpl; intros x Hn Hx; [repeat constructor; auto|].
+  inversion Hn; subst. constructor.
+  - rewrite in_app_iff. simpl. intros [H|[H|[]]]; [auto|]. subst. apply Hx. left; reflexivity.
+  - apply IH; auto.
+Qed.
+
+Lemma nodup_insert : forall st tp m s, NoDup (topics_in m s) -> NoDup (topics_in (insert_topic st tp m) s).
+Proof.
+  intros st tp m s. unfold topics_in. induction m as [|[k ts] r IH]; simpl; intros H.
+  - destruct (String.eqb s st); [repeat constructor; auto|constructor].
+  - destruct (String.eqb k st) eqn:Ek; simpl.
+    + destruct (String.eqb s k); [|exact H].
+      destruct (existsb (String.eqb tp) ts) eqn:Ex; [exact H|].
+      apply NoDup_app_intro_single; [exact H|].
+      intros Hin. assert (existsb (String.eqb tp) ts = true); [|congruence].
+      apply existsb_exists. exists tp. split; [exact Hin|apply String.eqb_refl].
+    + destruct (String.eqb s k); [exact H|apply IH; exact H].
+Qed.
+
+(* topicsbystatus: a topic is listed under a status exactly when some listed partition of that topic is in that status,
+   and it is listed there once - whatever other states partitions of the same topic are in *)
+Theorem topics_by_status_spec : forall name l s t,
+  In t (topics_in (topics_by_status name l) s) <-> exists p, In p l /\ name (fst p) = s /\ snd p = t.
+Proof.
+  intros name l s t. unfold topics_by_status.
+  assert (G : forall m, In t (topics_in (fold_left (fun m p => insert_topic (name (fst p)) (snd p) m) l m) s) <->
+                        In t (topics_in m s) \/ exists p, In p l /\ name (fst p) = s /\ snd p = t).
+  { induction l as [|p r IH]; intros m; simpl.
+    - split; [auto|]. intros [H|[p [[] _]]]; exact H.
+    - rewrite IH, topics_in_insert. split.
+      + intros [[H|[Hs Ht]]|[q [Hq Hr]]]; [auto | right; exists p; auto | right; exists q; auto].
+      + intros [H|[q [[Hq|Hq] [Hs Ht]]]]; [auto | subst q; left; right; auto | right; exists q; auto]. }
+  rewrite G. unfold topics_in at 1. simpl. split; [intros [[]|H]; exact H|auto].
+Qed.
+
+Theorem topics_by_status_nodup : forall name l s, NoDup (topics_in (topics_by_status name l) s).
+Proof.
+  intros name l s. unfold topics_by_status.
+  assert (G : forall m, NoDup (topics_in m s) ->
+            NoDup (topics_in (fold_left (fun m p => insert_topic (name (fst p)) (snd p) m) l m) s)).
+  { induction l as [|p r IH]; intros m H; simpl; [exact H|]. apply IH, nodup_insert, H. }
+  apply G. unfold topics_in. simpl. constructor.
+Qed.
+
+(* the model's helper is that function of the Status / Topic fields *)
+Lemma classify_is_fold : forall sch l m,
+  classify sch (map (fun p => VInt (TNamed (sch_status_ty sch)) (fst p)) l) (map (fun p => VStr (snd p)) l) m =
+  fold_left (fun m p => insert_topic (status_name sch (fst p)) (snd p) m) l m.
+Proof. induction l as [|p r IH]; intros m; simpl; [reflexivity|apply IH]. Qed.
+
+(* partitioncounts: every listed partition adds one to exactly the counter of its state (none for OK) *)
+Theorem partition_count_step : forall z l key,
+  partition_count (z :: l) key =
+  (partition_count l key + match count_key z with Some k => if String.eqb k key then 1 else 0 | None => 0 end)%Z.
+Proof.
+  intros z l key. unfold partition_count. cbn [filter].
+  destruct (count_key z) as [k|]; [destruct (String.eqb k key)|]; cbn [List.length]; lia.
+Qed.
+
+Theorem partition_count_nil : forall key, partition_count [] key = 0%Z.
+Proof. reflexivity. Qed.
